@@ -12,7 +12,7 @@ Init == l = 1
 Lenient == "LENIENT" \in DOMAIN IOEnv
 
 Explained(e) ==
-  LET x == Expect(e.fn, e.args) IN
+  LET x == Expect(e.ns, e.fn, e.args) IN
   IF x.k = "undef" THEN TRUE
   ELSE IF e.obs = x THEN TRUE
   ELSE PrintT(<<"MSG", ToJson([unexplained |-> e.case, checks |-> x])>>) /\ Lenient
